@@ -1,5 +1,5 @@
 #!/usr/bin/env python3
-"""Confirms seeded changes: for each /verif/seeded/_incoming/<id>/<k> — in a scratch worktree
+"""Confirms seeded changes: for each /verif/seeded/<id>/<k> — in a scratch worktree
 of /repo under /tmp — the demonstration passes on the unchanged tree, the change applies and
 builds, the repository's test suite still passes with it (only the baseline failure
 TestPanicRecovered allowed), and the demonstration fails with it. Writes results to
@@ -12,7 +12,7 @@ import subprocess
 import sys
 
 ENV = dict(os.environ, GOFLAGS="-mod=mod", GOPROXY="off", GOSUMDB="off", GOTOOLCHAIN="local")
-INC = "/verif/seeded/_incoming"
+INC = "/verif/seeded"
 
 
 def sh(cmd, cwd=None, timeout=3000):
